@@ -1824,6 +1824,33 @@ func c18DecoderComplete(c *core.Ctx) {
 							}
 						}
 					}
+					// the object handed to a helper function: fields the helper assigns through that parameter
+					for ai, a := range v.Args {
+						if !isRecv(a) || depth >= 3 {
+							continue
+						}
+						callee := core.Callee(info, v)
+						if callee == nil {
+							continue
+						}
+						hfd, _ := dix.find(callee)
+						if hfd == nil || hfd.Body == nil {
+							continue
+						}
+						k := 0
+						for _, fl := range hfd.Type.Params.List {
+							for _, nm := range fl.Names {
+								if k == ai {
+									if po := info.Defs[nm]; po != nil {
+										for f := range genOf(hfd.Body, po, all, depth+1) {
+											g[f] = true
+										}
+									}
+								}
+								k++
+							}
+						}
+					}
 				}
 				return true
 			})
